@@ -142,6 +142,7 @@ pub fn run_batch(prop: &str, tier: Tier, seed: u64, n: u64, wall_cap: Duration) 
         if procs.iter().all(|p| p.done) {
             break;
         }
+        let mut idle = false;
         match rx.recv_timeout(Duration::from_millis(500)) {
             Ok(Msg::Start(w, g, i)) => {
                 let p = &mut procs[w as usize];
@@ -211,10 +212,14 @@ pub fn run_batch(prop: &str, tier: Tier, seed: u64, n: u64, wall_cap: Duration) 
                 }
                 p.done = true;
             }
-            Err(mpsc::RecvTimeoutError::Timeout) => {}
+            Err(mpsc::RecvTimeoutError::Timeout) => idle = true,
             Err(_) => break,
         }
-        // watchdog
+        // watchdog - only when no worker message is waiting: a starved master with a backlog of unread results must
+        // not mistake its own lag for a worker's silence
+        if !idle {
+            continue;
+        }
         for w in 0..procs.len() {
             let p = &mut procs[w];
             if !p.done && p.current.is_some() && p.last.elapsed() > Duration::from_secs(hang_secs) {
